@@ -18,6 +18,7 @@ func ruleC03(c *Ctx) {
 		"FIELDMAP-W: every field the reader fills is written, somewhere in Build's family, under the keyword the reader dispatches on (incl. the two-space sub-keyword indent) and carries that very field; an optional line depends only on its own field; the LOCUS line carries name, length, molecule type, topology, division and date; REFERENCE header = ordinal + Range; Other[k] under k; every feature written",
 		"LAYOUT: constants audit – keyword pad width = continuation indent = 12, wrap width <= 68, feature columns 5/16/21, qualifier line = indent + /key=\"value\", ORIGIN 60 per line / 10 per block / number = index+1 right-aligned in 9, FEATURES header and // terminator constants, the spaces helper returns n spaces",
 		"TERM: location is the cached text when non-empty else BuildLocationString(SequenceLocation)",
+		"HAZARDS: no sort of map-derived keys by a non-injective key; no writer loop that leaves at the first empty value; no value cut at a fixed column into continuation lines; no keyword written with a constant; Build* do not modify the record; C02 location printer/parser rules re-run",
 		"NOSHARED: Build and its helpers use no package-level mutable state and return their own buffer",
 		"WRAPPERS: Write = WriteFile(path, Build(x)) truncating; Read = Parse(ReadFile(path)); C01's and C02's rules are the read side",
 	}
